@@ -55,7 +55,8 @@ def ob_step(a: int, b: int, c: int, hold: int) -> bool:
     else:
         hold = None
     w = S.in_state(state, dict(P.get('cfg', {})), hold=hold, closing=P.get('closing', False),
-                   old_closed=P.get('old_closed', False), old_closing=P.get('old_closing', False))
+                   old_closed=P.get('old_closed', False), old_closing=P.get('old_closing', False),
+                   stale_hold_timer=P.get('stale_hold_timer'))
     SC.inject(w, ev, a, b, c)
     cover('stepped')
     if not reconnect_pending(w):
@@ -220,6 +221,12 @@ def obligations(tier, seed):
             if state != S.IDLE:
                 out.append(ob('C02/pending-earlier-connection-closing/%s/%s' % (S.STATE_NAMES[state], ev), 'ob_step',
                               {'state': state, 'ev': ev, 'old_closing': True}, covers=['stepped'], cap=120))
+    # a hold timer left over from the previous connection is still running (Idle / Connect) - and expires there, or
+    # something else happens first
+    for state in (S.IDLE, S.CONNECT):
+        for ev in ['holdt'] + [e for e in SC.EVENTS_BY_STATE[state] if e != 'manual_stop']:
+            out.append(ob('C02/pending-stale-hold-timer/%s/%s' % (S.STATE_NAMES[state], ev), 'ob_step',
+                          {'state': state, 'ev': ev, 'old_closed': True, 'stale_hold_timer': 240}, covers=['stepped'], cap=120))
     out.append(ob('C02/pending/IDLE/close_done', 'ob_step', {'state': S.IDLE, 'ev': 'close_done', 'closing': True},
                   covers=['stepped']))
     k = 3 if quick else 4
